@@ -267,7 +267,7 @@ def run(chk, tier):
         chk.analysis_broken("IT1: only %d algorithms with a modelled scan cursor (floor 60)" % n_scan)
     if n_f < 70:
         chk.analysis_broken("IT2: only %d functor/default overloads (floor 70)" % n_f)
-    if nrel < 6:
+    if chk.rule_instances.get("REL", 0) < 6:      # operators found (an unmodelled body is UNKNOWN, not a lost subject)
         chk.analysis_broken("REL: reverse_iterator operators not modelled")
     chk.assumptions += [
         "resulting sequences and match positions are run-time values and are not decided in general (search_n's match start, the "
